@@ -211,6 +211,8 @@ pub struct World {
     forced: Vec<Op>,
     /// DOS 3.x on a flat DO / D13 image: the same for the concrete DOS model (driver family `fsd`)
     dos_op: Option<(String, Option<String>)>,
+    /// directories that are locked (read-only) at the moment
+    pub locked_dirs: BTreeSet<String>,
     /// the independent reader's (free count, nothing leaks) after the previous step
     last_reading: Option<(usize, bool)>,
     /// a refused operation changed the free map: from here on only the count is compared (C04 speaks of successful histories)
@@ -418,6 +420,10 @@ pub enum Op {
     Reload(bool),
     /// block-level path of the DiskFS trait: read a block and write the same bytes back (must change nothing)
     RawRewrite(usize),
+    /// a file image without any chunk (zero-length file: FAT and CP/M store it, ProDOS refuses it)
+    PutEmpty(String),
+    /// lock / unlock of a directory (toggles), rename of a directory without entries
+    LockDir(String), RenameDir(String, String),
     Delete(String), Rename(String, String), Lock(String), Unlock(String), Retype(String, usize), Mkdir(String), PutDup(String), RenameOnto(String, String), GetMissing(String), DeleteMissing(String), Protect(String), Unprotect(String), PutBad(usize) }
 
 pub struct Verdicts<'a> { pub out: &'a mut Out, pub focus: Focus, pub idx: usize, pub cfgid: String }
@@ -592,7 +598,7 @@ impl<'a> Hist<'a> {
             Ok(Err(e)) => { out.count(&format!("mkvol-error:{}:{}", cfgid, e)); return None; }
             Err(p) => { let mut vd = Verdicts { out, focus, idx, cfgid: cfgid.clone() }; vd.panic(&p, "format", &[]); return None; }
         };
-        let mut w = World { cfg: cfg.clone(), disk, files: BTreeMap::new(), dirs: BTreeSet::new(), chunk_len: 0, hist: Vec::new(), lean_op: None, last_op: None, pas_op: None, dos_op: None, forced: Vec::new(), last_reading: None, leak_tainted: false };
+        let mut w = World { cfg: cfg.clone(), disk, files: BTreeMap::new(), dirs: BTreeSet::new(), chunk_len: 0, hist: Vec::new(), lean_op: None, last_op: None, pas_op: None, dos_op: None, forced: Vec::new(), locked_dirs: BTreeSet::new(), last_reading: None, leak_tainted: false };
         w.forced = forced;
         w.chunk_len = match guarded(|| w.disk.new_fimg(None, false, if cfg.fs.is_cpm() || cfg.fs == Fs::Fat { "A.TXT" } else { "A" })) { Ok(Ok(f)) => f.chunk_len, _ => 512 };
         let mut tie = LeanTie { prev: Vec::new(), opened: false };
@@ -660,11 +666,21 @@ impl<'a> Hist<'a> {
 /// extra operations of the random generator, drawn from a stream of their own so that the main stream of a history
 /// is the one it was before they existed: save / save-and-reload in mid-history (all file systems and containers),
 /// delete of a directory (file systems with directories)
-fn extra_op(w: &World, aux: &mut Rng) -> Option<Op> {
+fn extra_op(w: &World, aux: &mut Rng, focus: Focus) -> Option<Op> {
     let r = aux.below(1000);
-    if r < 25 { return Some(Op::Reload(aux.chance(60))); }
-    if r < 40 { return Some(Op::Save); }
-    if r < 90 && w.fs().has_dirs() && !w.dirs.is_empty() { let d: Vec<&String> = w.dirs.iter().collect(); return Some(Op::DeleteDir((*aux.pick(&d)).clone())); }
+    // (save / reload are left out under the two slowest foci, C04 and C05)
+    let saves = !matches!(focus, Focus::C04 | Focus::C05);
+    if r < 25 { return if saves { Some(Op::Reload(aux.chance(60))) } else { None }; }
+    if r < 40 { return if saves { Some(Op::Save) } else { None }; }
+    let fs = w.fs();
+    if r < 55 && matches!(fs, Fs::Fat | Fs::Cpm2 | Fs::Cpm3 | Fs::Prodos) { return Some(Op::PutEmpty(gen_name(fs, aux, &w.dirs))); }
+    if fs.has_dirs() && !w.dirs.is_empty() {
+        let d: Vec<&String> = w.dirs.iter().collect();
+        let pick = (*aux.pick(&d)).clone();
+        if r < 105 { return Some(Op::DeleteDir(pick)); }
+        if r < 130 { return Some(Op::LockDir(pick)); }
+        if r < 140 { return Some(Op::RenameDir(pick, gen_dirname(fs, aux, &BTreeSet::new()))); }
+    }
     None
 }
 
@@ -734,7 +750,7 @@ fn one_history(ctx: &mut Ctx, focus: Focus, idx: usize, cfg: &VolCfg, steps: usi
         let in_burst = matches!(burst.as_ref(), Some((_, left)) if *left > 0 && step >= 2);
         // now and then (not inside a burst): save, save + reload, delete of a directory
         if !in_burst && step > 0 {
-            if let Some(op) = extra_op(&h.w, &mut aux) {
+            if let Some(op) = extra_op(&h.w, &mut aux, focus) {
                 if h.step_at(op, &mut aux, free).starts_with("ABORT") { break; }
             }
         }
@@ -818,7 +834,7 @@ fn scenarios() -> Vec<Scenario> {
         // FAT sub-directory of three clusters (512-byte clusters: the 31st file), operations on entries of every cluster
         sc("fat-subdir-3-clusters", Fs::Fat, "img", "ibm-ssdd-9", &[C01, C02, C04, C05, C19], sc_fat_subdir),
         // the same with 1K clusters (the 63rd file)
-        sc("fat-subdir-3-clusters-1k", Fs::Fat, "img", "ibm-dsdd-9", &[C01, C03, C04], sc_fat_subdir),
+        sc("fat-subdir-3-clusters-1k", Fs::Fat, "img", "ibm-dsdd-9", &[C01, C03], sc_fat_subdir),
         // DOS 3.x data disk: only tracks 1-2 free while the last allocation was above the catalog track
         sc("dos33-low-tracks", Fs::Dos33, "do", "a2-525-16", &[C01, C02, C04], sc_dos_low_tracks),
         sc("dos32-low-tracks", Fs::Dos32, "d13", "a2-525-13", &[C03, C04], sc_dos_low_tracks),
@@ -828,14 +844,14 @@ fn scenarios() -> Vec<Scenario> {
         // ProDOS sparse tree files at exact fit and one block short
         sc("prodos-sparse-exact-fit", Fs::Prodos, "po", "a2-525-16", &[C01, C02, C03, C04], sc_prodos_sparse_fit),
         // ProDOS sub-directory of four blocks, operations on entries of every block, delete of the grown directory
-        sc("prodos-subdir-4-blocks", Fs::Prodos, "po", "a2-525-16", &[C02, C03, C04, C05, C19], sc_prodos_subdir),
+        sc("prodos-subdir-4-blocks", Fs::Prodos, "po", "a2-525-16", &[C02, C03, C05, C19], sc_prodos_subdir),
         // CP/M: files ending at / crossing logical and physical extent boundaries (EXM = 1), holes spanning whole extents,
         // a two-extent file into the last two / the last directory slot
-        sc("cpm-extents-exm1", Fs::Cpm2, "imd", "kaypro4", &[C01, C02, C03, C05], sc_cpm_extents),
+        sc("cpm-extents-exm1", Fs::Cpm2, "imd", "kaypro4", &[C01, C02, C03], sc_cpm_extents),
         sc("cpm-extents-exm0", Fs::Cpm2, "do", "a2-525-16", &[C01, C04], sc_cpm_extents),
         sc("cpm3-extents", Fs::Cpm3, "imd", "amstrad-ss", &[C03, C19], sc_cpm_extents),
         // Pascal: contiguity on a full volume (exact gap, gap + 1, merged gaps, file ending on the last block)
-        sc("pascal-gaps", Fs::Pascal, "po", "a2-525-16", &[C01, C03, C04, C05], sc_pascal_gaps),
+        sc("pascal-gaps", Fs::Pascal, "po", "a2-525-16", &[C01, C03, C04], sc_pascal_gaps),
         // ProDOS volumes whose size is a multiple of 4096 blocks (the bitmap ends exactly at a block boundary)
         sc("prodos-4096-blocks", Fs::Prodos, "po", "a2-hd-4096", &[C02, C03, C04, C06], sc_prodos_full_bitmap_block),
         sc("prodos-8192-blocks", Fs::Prodos, "po", "a2-hd-8192", &[C01, C02, C04, C06], sc_prodos_full_bitmap_block),
@@ -843,6 +859,16 @@ fn scenarios() -> Vec<Scenario> {
         sc("dos33-no-first-chunk", Fs::Dos33, "do", "a2-525-16", &[C01, C03], sc_no_first_chunk),
         sc("prodos-no-first-chunk", Fs::Prodos, "po", "a2-525-16", &[C01, C02, C04], sc_no_first_chunk),
         sc("cpm-no-first-chunk", Fs::Cpm2, "imd", "kaypro4", &[C01, C03], sc_no_first_chunk),
+        // CP/M with 16-bit block pointers (DSM >= 256): a file that owns blocks >= 256, then further puts
+        sc("cpm-16bit-pointers", Fs::Cpm2, "imd", "trs80-m2", &[C01, C02], sc_cpm_16bit),
+        // ProDOS 800K: sequential tree files of 256k+1 blocks (769, 513) at exact fit and one block short
+        sc("prodos-exact-fit-800k", Fs::Prodos, "po", "a2-35-800", &[C04], sc_prodos_fit_800k),
+        // a locked (read-only) empty sub-directory: delete and rename are refused until it is unlocked
+        sc("fat-locked-directory", Fs::Fat, "img", "ibm-ssdd-9", &[C19], sc_locked_dir),
+        sc("prodos-locked-directory", Fs::Prodos, "po", "a2-525-16", &[C19], sc_locked_dir),
+        // FAT sub-directory exactly full, then growth without a data cluster (zero-length file; put refused for lack of
+        // space), save / reload right after it
+        sc("fat-full-directory-grows", Fs::Fat, "img", "ibm-ssdd-9", &[C05, C06], sc_fat_full_dir_grows),
         // (append new scenarios here: the position in this list is the case index)
     ]
 }
@@ -913,6 +939,9 @@ impl<'a> Hist<'a> {
     pub fn retype(&mut self, rng: &mut Rng, path: &str, sel: usize) -> bool { let cp = self.cp(path); if !self.w.files.contains_key(&cp) { return self.skip(); } Self::done(&self.step(Op::Retype(cp, sel), rng)) }
     pub fn mkdir(&mut self, rng: &mut Rng, path: &str) -> bool { Self::done(&self.step(Op::Mkdir(path.to_string()), rng)) }
     pub fn rmdir(&mut self, rng: &mut Rng, path: &str) -> bool { let cp = self.cp(path); if !self.w.dirs.contains(&cp) { return self.skip(); } Self::done(&self.step(Op::DeleteDir(cp), rng)) }
+    pub fn put_empty(&mut self, rng: &mut Rng, path: &str) -> bool { Self::done(&self.step(Op::PutEmpty(path.to_string()), rng)) }
+    pub fn toggle_lock_dir(&mut self, rng: &mut Rng, path: &str) -> bool { let cp = self.cp(path); if !self.w.dirs.contains(&cp) { return self.skip(); } Self::done(&self.step(Op::LockDir(cp), rng)) }
+    pub fn rename_dir(&mut self, rng: &mut Rng, path: &str, newbase: &str) -> bool { let cp = self.cp(path); if !self.w.dirs.contains(&cp) { return self.skip(); } Self::done(&self.step(Op::RenameDir(cp, newbase.to_string()), rng)) }
     pub fn raw_rewrite(&mut self, rng: &mut Rng, block: usize) -> bool { Self::done(&self.step(Op::RawRewrite(block), rng)) }
     pub fn save(&mut self, rng: &mut Rng) -> bool { Self::done(&self.step(Op::Save, rng)) }
     pub fn reload(&mut self, rng: &mut Rng, with_ext: bool) -> bool { Self::done(&self.step(Op::Reload(with_ext), rng)) }
@@ -1166,6 +1195,8 @@ fn sc_cpm_extents(h: &mut Hist, rng: &mut Rng) {
     h.put_idx(rng, "F.BIN", &[0, ppe], 128);
     h.put_idx(rng, "G.BIN", &[0, 2 * ppe + 1], 77);
     h.put_idx(rng, "H.BIN", &[0, lx - 1, lx, 3 * ppe - 1], bls);
+    // the hole covers the whole first logical extent of the last directory entry, data in its second half
+    h.put_idx(rng, "I.BIN", &[0, 1, ppe + lx, ppe + lx + 1, ppe + lx + 2], 300);
     if d.exm > 0 { h.mark("logical-extent-boundaries-exm>0"); } else { h.mark("extent-boundaries-exm0"); }
     h.toggle_lock(rng, "A.BIN");
     h.del(rng, "A.BIN");
@@ -1179,6 +1210,8 @@ fn sc_cpm_extents(h: &mut Hist, rng: &mut Rng) {
     let mut placed = 0;
     for i in 0..slots.saturating_sub(2) { if !h.put_len(rng, &format!("S{:03}.X", i), 1, 1 + i % 128) { break; } placed += 1; }
     if placed + 2 == slots {
+        // data in the first and the third directory entry, the second one is a hole: two entries are enough
+        if h.put_idx(rng, "Q.BIN", &[0, 2 * ppe], 50) { h.mark("sparse-two-entry-file-into-last-two-slots"); h.del(rng, "Q.BIN"); }
         if h.put(rng, "M.BIN", ppe + 1) {
             h.mark("two-entry-file-into-last-two-slots");
             h.del(rng, "M.BIN");
@@ -1188,6 +1221,83 @@ fn sc_cpm_extents(h: &mut Hist, rng: &mut Rng) {
             if !h.put_len(rng, "Y.X", 1, 5) { h.mark("directory-full"); }
         }
     } else { h.mark("directory-full-early"); }
+}
+
+fn sc_cpm_16bit(h: &mut Hist, rng: &mut Rng) {
+    let d = dpb::DiskParameterBlock::create(&h.w.cfg.kind);
+    if d.dsm >= 256 { h.mark("16-bit-block-pointers"); }
+    let total = d.dsm as usize + 1;
+    // blocks are handed out first-fit from the directory upwards: a file that ends beyond block 256
+    let n_big = (256 + 14).min(total.saturating_sub(20));
+    if h.put(rng, "BIG.DAT", n_big) { h.mark("file-owns-blocks>=256"); }
+    h.put(rng, "SMALL.DAT", 10);
+    h.put_idx(rng, "SP.DAT", &[0, 9, 17], 100);
+    h.del(rng, "SMALL.DAT");
+    h.put(rng, "MID.DAT", 12);
+    h.rename(rng, "BIG.DAT", "BIG2.DAT");
+    h.toggle_lock(rng, "MID.DAT");
+    h.put_len(rng, "ONE.DAT", 1, 77);
+    h.del(rng, "BIG2.DAT");
+    h.put(rng, "AGAIN.DAT", 40);
+    h.toggle_lock(rng, "MID.DAT");
+}
+
+fn sc_prodos_fit_800k(h: &mut Hist, rng: &mut Rng) {
+    // 256k+1 blocks: the last chunk opens a fresh index block of a file that is a tree file already
+    for (k, n) in [769usize, 513].iter().enumerate() {
+        let need = dense_units(Fs::Prodos, *n);
+        if !h.fill_to(rng, need, "PAD") { h.mark("fill-failed"); return; }
+        let name = format!("SEQ{}", n);
+        if h.put(rng, &name, *n) { if h.free_now() == 0 { h.mark("exact-fit-accepted"); } h.del(rng, &name); }
+        let one = format!("ONE{}", k);
+        h.put_len(rng, &one, 1, 9);
+        if h.put(rng, &name, *n) { h.del(rng, &name); } else { h.mark("one-short-refused"); }
+        h.del(rng, &one);
+    }
+}
+
+fn sc_locked_dir(h: &mut Hist, rng: &mut Rng) {
+    h.mkdir(rng, "LD");
+    h.put_len(rng, "KEEP", 2, 33);
+    if h.toggle_lock_dir(rng, "LD") {
+        h.mark("directory-locked");
+        if !h.rmdir(rng, "LD") { h.mark("locked-rmdir-refused"); }
+        if !h.rename_dir(rng, "LD", "NEWD") { h.mark("locked-rename-refused"); }
+        h.toggle_lock_dir(rng, "LD");
+    } else { h.mark("directory-lock-not-supported"); }
+    h.rename_dir(rng, "LD", "NEWD");
+    h.mkdir(rng, "NEWD/IN");
+    if h.toggle_lock_dir(rng, "NEWD/IN") { h.rmdir(rng, "NEWD/IN"); h.toggle_lock_dir(rng, "NEWD/IN"); }
+    h.rmdir(rng, "NEWD/IN");
+    h.toggle_lock_dir(rng, "NEWD");
+    h.rmdir(rng, "NEWD");
+    h.toggle_lock_dir(rng, "NEWD");
+    if h.rmdir(rng, "NEWD") { h.mark("unlocked-rmdir-accepted"); }
+}
+
+fn sc_fat_full_dir_grows(h: &mut Hist, rng: &mut Rng) {
+    let cl = h.w.chunk_len.max(32);
+    let per = cl / 32;
+    h.mkdir(rng, "SUB");
+    for i in 0..per - 2 { if !h.put_len(rng, &format!("SUB/F{:02}.DAT", i), 1, 1 + (i * 41) % cl) { return; } }
+    h.mark("directory-exactly-full");
+    // one more entry, no data cluster: the only change of the FAT is the link to the new directory cluster
+    if h.put_empty(rng, "SUB/Z0.DAT") { h.mark("grown-by-zero-length-file"); }
+    h.reload(rng, true);
+    for i in 0..per - 1 { if !h.put_len(rng, &format!("SUB/G{:02}.DAT", i), 1, 1 + (i * 43) % cl) { break; } }
+    h.save(rng);
+    if h.put_empty(rng, "SUB/Z1.DAT") { h.mark("grown-twice-by-zero-length-file"); }
+    h.reload(rng, false);
+    h.put_empty(rng, "ROOTZ.DAT");
+    // growth that survives a refused put: the directory takes the last free cluster, the data does not fit any more
+    h.mkdir(rng, "S2");
+    for i in 0..per - 2 { if !h.put_len(rng, &format!("S2/F{:02}.DAT", i), 1, 7) { break; } }
+    if h.fill_to(rng, 1, "FILL") {
+        if !h.put(rng, "S2/BIG.DAT", 2) { h.mark("grown-by-refused-put"); }
+        h.reload(rng, true);
+        h.put_empty(rng, "S2/Z2.DAT");
+        h.reload(rng, true);
+    }
 }
 
 fn sc_pascal_gaps(h: &mut Hist, rng: &mut Rng) {
@@ -1389,6 +1499,17 @@ fn apply_op(w: &mut World, op: Op, rng: &mut Rng, free: usize, vd: &mut Verdicts
                     // refusal (reported as DISK FULL) is correct however much room there is
                     let end_idx = r.chunks.keys().max().map(|m| m + 1).unwrap_or(0);
                     let representable = match fs { Fs::Prodos => end_idx <= 32768 && r.eof < (1 << 24), _ => true };
+                    // CP/M 2.2: "and for which a directory slot exists" can be decided - a file takes one directory entry for every
+                    // entry-sized group of chunk indices that holds data (at least one), the directory has DRM + 1 entries
+                    if fs == Fs::Cpm2 && cls == "dirfull" && !dup && need <= free {
+                        let dp = dpb::DiskParameterBlock::create(&w.cfg.kind);
+                        let ppe = if dp.dsm < 256 { 16 } else { 8 };
+                        let ents = |r: &RefFile| r.chunks.keys().map(|k| k / ppe).collect::<BTreeSet<usize>>().len().max(1);
+                        let used: usize = w.files.values().map(|f| ents(f)).sum();
+                        let slots = dp.drm as usize + 1;
+                        if used + ents(&r) <= slots { vd.v(Focus::C04, false, "fits-is-accepted", &format!("needs {} directory entries, {} of {} are free, {} blocks of {} free: refused: {}", ents(&r), slots - used, slots, need, free, e), &w.hist.clone()); }
+                        else { vd.v(Focus::C04, true, "fits-is-accepted", "", &[]); }
+                    }
                     // a file that fits is "accepted rather than rejected or crashing": a refusal with a device-level error (the
                     // write-back ran into a sector that does not exist, ...) is as much a rejection as DISK FULL
                     let el = e.to_lowercase();
@@ -1595,9 +1716,10 @@ fn apply_op(w: &mut World, op: Op, rng: &mut Rng, free: usize, vd: &mut Verdicts
             // still has entries is refused and nothing changes (C02, C05; the per-step spec and the byte-exact models see both)
             let prefix = format!("{}/", cp);
             let nonempty = w.files.keys().any(|k| k.starts_with(&prefix)) || w.dirs.iter().any(|k| k.starts_with(&prefix));
+            let locked = w.locked_dirs.contains(&cp);
             let sp = spell(fs, &cp, rng);
             let res = guarded(|| w.disk.delete(&sp).map_err(|e| e.to_string()));
-            let d = format!("delete-dir {}{} => {}", sp, if nonempty { "(non-empty)" } else { "" }, match &res { Ok(Ok(_)) => "ok".to_string(), Ok(Err(e)) => format!("err:{}", err_class(e)), Err(_) => "PANIC".to_string() });
+            let d = format!("delete-dir {}{}{} => {}", sp, if nonempty { "(non-empty)" } else { "" }, if locked { "(locked)" } else { "" }, match &res { Ok(Ok(_)) => "ok".to_string(), Ok(Err(e)) => format!("err:{}", err_class(e)), Err(_) => "PANIC".to_string() });
             w.hist.push(d.clone());
             w.lean_op = Some(format!("delete {} {}", hxs(&cp), res_tok(&res)));
             w.last_op = Some(OpRecord::new("delete", &sp, &cp, "", "", &res));
@@ -1608,16 +1730,99 @@ fn apply_op(w: &mut World, op: Op, rng: &mut Rng, free: usize, vd: &mut Verdicts
                         for f in [Focus::C02, Focus::C05] { vd.v(f, false, "nonempty-directory-delete-refused", &format!("directory {} still has entries and was deleted", cp), &w.hist.clone()); }
                         return format!("ABORT {}", d);
                     }
-                    w.dirs.remove(&cp);
+                    // a protected object cannot be deleted until it is unlocked, directories included
+                    if locked { vd.v(Focus::C19, false, "locked-refuses-delete", &format!("locked directory {} was deleted", cp), &w.hist.clone()); }
+                    w.dirs.remove(&cp); w.locked_dirs.remove(&cp);
                     // at least the key block / first cluster comes back (a grown directory gives back more; the reader's
                     // accounting oracle `free-equals-unreachable` checks the exact number)
                     if let Ok(f2) = w.free() { vd.v(Focus::C04, f2 > free, "delete-restores-free", &format!("free {}->{} after deleting directory {}", free, f2, cp), &w.hist.clone()); }
                     vd.out.count("delete-dir:ok");
                 }
                 Ok(Err(e)) => {
+                    if locked { vd.v(Focus::C19, true, "locked-refuses-delete", "", &[]); vd.out.count("delete-dir:refused-locked"); }
                     if nonempty { for f in [Focus::C02, Focus::C05] { vd.v(f, true, "nonempty-directory-delete-refused", "", &[]); } vd.out.count("delete-dir:refused-nonempty"); }
-                    else { vd.v(Focus::C05, false, "delete-existing-succeeds", &format!("delete of empty directory {} refused: {}", cp, e), &w.hist.clone()); }
+                    else if !locked { vd.v(Focus::C05, false, "delete-existing-succeeds", &format!("delete of empty directory {} refused: {}", cp, e), &w.hist.clone()); }
                 }
+            }
+            d
+        }
+        Op::LockDir(cp) => {
+            // where the file system lets a directory be locked, the lock means what it means for a file (C19)
+            let was = w.locked_dirs.contains(&cp);
+            let sp = spell(fs, &cp, rng);
+            let res = if was { guarded(|| w.disk.unlock(&sp).map_err(|e| e.to_string())) } else { guarded(|| w.disk.lock(&sp).map_err(|e| e.to_string())) };
+            let verb = if was { "unlock" } else { "lock" };
+            let d = format!("{}-dir {} => {}", verb, sp, match &res { Ok(Ok(_)) => "ok".to_string(), Ok(Err(e)) => format!("err:{}", err_class(e)), Err(_) => "PANIC".to_string() });
+            w.hist.push(d.clone());
+            // (the readers do not record a protection flag for directory records: for the step spec this is a `retype`-like
+            // step - the record keeps its content and blocks, every other record is unchanged)
+            w.lean_op = Some(format!("retype {} {}", hxs(&cp), res_tok(&res)));
+            w.last_op = Some(OpRecord::new(if was { "unlock" } else { "lock" }, &sp, &cp, "", "", &res));
+            match res {
+                Err(p) => { vd.panic(&p, "lock", &w.hist.clone()); return format!("ABORT {}", d); }
+                Ok(Ok(_)) => { if was { w.locked_dirs.remove(&cp); } else { w.locked_dirs.insert(cp); } vd.out.count(&format!("{}-dir:ok", verb)); }
+                Ok(Err(_)) => { vd.out.count(&format!("{}-dir:refused", verb)); }
+            }
+            d
+        }
+        Op::RenameDir(cp, newbase) => {
+            let prefix = format!("{}/", cp);
+            if w.files.keys().any(|k| k.starts_with(&prefix)) || w.dirs.iter().any(|k| k.starts_with(&prefix)) { return String::from("skip"); }
+            let newbase_c = base_of(&canon_path(fs, &newbase));
+            let target = match parent_of(&cp) { Some(par) => format!("{}/{}", par, newbase_c), None => newbase_c.clone() };
+            let locked = w.locked_dirs.contains(&cp);
+            let dup = w.files.contains_key(&target) || w.dirs.contains(&target);
+            let sp = spell(fs, &cp, rng);
+            let res = guarded(|| w.disk.rename(&sp, &newbase).map_err(|e| e.to_string()));
+            let d = format!("rename-dir {}{} -> {} => {}", sp, if locked { "(locked)" } else { "" }, newbase, match &res { Ok(Ok(_)) => "ok".to_string(), Ok(Err(e)) => format!("err:{}", err_class(e)), Err(_) => "PANIC".to_string() });
+            w.hist.push(d.clone());
+            w.lean_op = Some(format!("rename {} {} {}", hxs(&cp), hxs(&target), res_tok(&res)));
+            w.last_op = Some(OpRecord::new("rename", &sp, &cp, &newbase, &target, &res));
+            match res {
+                Err(p) => { vd.panic(&p, "rename", &w.hist.clone()); return format!("ABORT {}", d); }
+                Ok(Ok(_)) => {
+                    if dup && target != cp { vd.v(Focus::C05, false, "rename-onto-existing-refused", &format!("{} -> {} succeeded", cp, target), &w.hist.clone()); return format!("ABORT {}", d); }
+                    if locked { vd.v(Focus::C19, false, "locked-refuses-rename", &format!("locked directory {} was renamed", cp), &w.hist.clone()); }
+                    w.dirs.remove(&cp); w.dirs.insert(target.clone());
+                    if w.locked_dirs.remove(&cp) { w.locked_dirs.insert(target); }
+                    vd.out.count("rename-dir:ok");
+                }
+                Ok(Err(_)) => { if locked { vd.v(Focus::C19, true, "locked-refuses-rename", "", &[]); } }
+            }
+            d
+        }
+        Op::PutEmpty(path) => {
+            let cp = canon_path(fs, &path);
+            let dup = w.files.contains_key(&cp) || w.dirs.contains(&cp);
+            let mut fimg = match guarded(|| w.disk.new_fimg(None, true, &path).map_err(|e| e.to_string())) { Ok(Ok(f)) => f, _ => return String::from("skip") };
+            let (ft, aux, acc) = ftype_for(fs, 1, &path);
+            if !ft.is_empty() { fimg.fs_type = ft; }
+            if !aux.is_empty() { fimg.aux = aux; }
+            if let Some(a) = acc { fimg.access = a; }
+            fimg.set_eof(0);
+            let r = RefFile { chunks: BTreeMap::new(), eof: 0, ftype: fimg.fs_type.clone(), aux: fimg.aux.clone(), access: fimg.access.clone(), locked: false };
+            let res = guarded(|| w.disk.put(&fimg).map_err(|e| e.to_string()));
+            let d = format!("put-empty {} => {}", path, match &res { Ok(Ok(_)) => "ok".to_string(), Ok(Err(e)) => format!("err:{}", err_class(e)), Err(_) => "PANIC".to_string() });
+            w.hist.push(d.clone());
+            let (ty, auxn) = type_num(fs, &r);
+            w.lean_op = Some(format!("put {} {} 0 {} {} -", hxs(&cp), res_tok(&res), ty, auxn));
+            w.last_op = Some(OpRecord::new("put", &path, &cp, "", "", &res).with_fimg(&fimg));
+            match res {
+                Err(p) => { vd.panic(&p, "put", &w.hist.clone()); return format!("ABORT {}", d); }
+                Ok(Ok(_)) => {
+                    if dup { vd.v(Focus::C05, false, "duplicate-put-refused", &format!("put onto existing {} succeeded", cp), &w.hist.clone()); return format!("ABORT {}", d); }
+                    w.files.insert(cp.clone(), r.clone());
+                    match w.get(&path) {
+                        Err(p) => vd.panic(&p, "get", &w.hist.clone()),
+                        Ok(Err(e)) => vd.v(Focus::C01, false, "get-after-put", &format!("get {} failed: {}", path, e), &w.hist.clone()),
+                        Ok(Ok(g)) => match w.compare(&cp, &r, &g) { Some(diff) => vd.v(Focus::C01, false, "get-after-put", &diff, &w.hist.clone()), None => vd.v(Focus::C01, true, "get-after-put", "", &[]) }
+                    }
+                    // no data unit is taken (a full sub-directory may grow by one)
+                    let grow = if fs.has_dirs() && cp.contains('/') { 1 } else { 0 };
+                    if let Ok(f2) = w.free() { vd.v(Focus::C04, free >= f2 && free - f2 <= grow, "put-consumes-need", &format!("free {}->{} need=0", free, f2), &w.hist.clone()); }
+                    vd.out.count("put-empty:stored");
+                }
+                Ok(Err(_)) => { if dup { vd.v(Focus::C05, true, "duplicate-put-refused", "", &[]); } vd.out.count("put-empty:refused"); }
             }
             d
         }
